@@ -113,9 +113,92 @@ def run_threads(ops, nthreads, switch):
     return results
 
 
+class Sched:
+    """Deterministic cooperative scheduler for the threads of run_sched: exactly one thread runs at a time; control changes
+    hands only at yield points (entry of every code-generator constructor and of every generate() call, entry of
+    generate_code / merge_models / MetadataGenerator.generate).  A schedule is a list of segments [thread, k]: "let this
+    thread run until it has reached k further yield points (or ended)"; when the list is used up the unfinished threads run
+    to the end one after the other."""
+
+    def __init__(self, n, segments):
+        self.cv = threading.Condition()
+        self.done = [False] * n
+        self.segments = [tuple(x) for x in segments]
+        self.turn, self.left = None, 0
+        self.ids = {}
+        self._next()
+
+    def _next(self):
+        while self.segments:
+            t, k = self.segments.pop(0)
+            if not self.done[t] and k > 0:
+                self.turn, self.left = t, k
+                return
+        rest = [i for i, d in enumerate(self.done) if not d]
+        self.turn, self.left = (rest[0], 10 ** 9) if rest else (None, 0)
+
+    def begin(self, i):
+        with self.cv:
+            self.ids[threading.get_ident()] = i
+            self.cv.wait_for(lambda: self.turn == i)
+
+    def point(self):
+        i = self.ids.get(threading.get_ident())
+        if i is None:
+            return
+        with self.cv:
+            self.left -= 1
+            if self.left <= 0:
+                self._next()
+                self.cv.notify_all()
+            self.cv.wait_for(lambda: self.turn == i)
+
+    def end(self, i):
+        with self.cv:
+            self.done[i] = True
+            self._next()
+            self.cv.notify_all()
+
+
+def run_sched(ops, segments):
+    """the threads of run_threads under a forced schedule (see Sched); -> per-thread outputs"""
+    from json_to_models.models import base as mb
+    from json_to_models import generator as gm, registry as rm
+    n = len(ops)
+    sched = Sched(n, segments)
+
+    def wrap(owner, name):
+        orig = getattr(owner, name)
+
+        def w(*a, **k):
+            sched.point()
+            return orig(*a, **k)
+        setattr(owner, name, w)
+    wrap(mb.GenericModelCodeGenerator, "__init__")
+    wrap(mb.GenericModelCodeGenerator, "generate")
+    wrap(gm.MetadataGenerator, "generate")
+    wrap(rm.ModelRegistry, "merge_models")
+    results = [None] * n
+
+    def work(i):
+        sched.begin(i)
+        try:
+            results[i] = run_history(ops[i])
+        finally:
+            sched.end(i)
+    ts = [threading.Thread(target=work, args=(i,)) for i in range(n)]
+    for t in ts:
+        t.start()
+    for t in ts:
+        t.join()
+    return results
+
+
 if __name__ == "__main__":
     spec = json.loads(sys.argv[1])
-    if spec.get("threads"):
+    if spec.get("schedule") is not None:
+        res = run_sched(spec["ops"], spec["schedule"])
+    elif spec.get("threads"):
         res = run_threads(spec["ops"], spec["threads"], spec.get("switch", 1e-6))
     else:
         res = run_history(spec["ops"])
